@@ -38,6 +38,18 @@ EXEMPT = {
     "Value.ObjModule": "module (rooted in Vm.modules)",
 }
 
+# struct.field -> reason. Edges that exist, are NOT exempt, and cannot be encoded with this technique here:
+# marking them means iterating a hashbrown table (`impl GcManaged for HashMap<K, V, S>`), and one
+# iteration of a one-entry table does not finish under Kani/CBMC in 25 minutes (SIMD group model, unwind
+# 17); Kani cannot stub a method of a generic trait impl either, so the owner -> table delegation cannot
+# be observed without the iteration. They are reported in the evidence as outside the claim.
+NOT_ENCODABLE = {
+    "ObjClass.methods": "hashbrown table (method values)",
+    "ObjInstance.fields": "hashbrown table (field values)",
+    "ObjHashMap.elements": "hashbrown table (keys and values; the map-key defect fixed in /repo lived in the generic impl)",
+    "ObjModule.attributes": "hashbrown table (global values)",
+}
+
 PREAMBLE = r'''
 // ---- verif C01-H2: GENERATED edge-completeness harnesses (appended to object.rs) -----------------
 // For every reference-bearing field: build the owner with a WHITE leaf behind that edge and GREY
@@ -46,7 +58,25 @@ PREAMBLE = r'''
 #[cfg(kani)]
 mod verif_c01_edges {
     use super::*;
-    use crate::memory::verif_mem::{colour_of, leak_gc, set_colour, GREY, WHITE};
+    use crate::memory::verif_mem::{colour_of, set_colour, Placed, GREY, WHITE};
+
+    /// A `Gc<T>` to an object kept in a typed static (one small pool per expansion site): unlike a leaked
+    /// Box, a static is a typed CBMC object, so a pointer stored in it keeps its identity and the colour
+    /// test at the head of `GcBox::mark` stays a constant - a pre-greyed class is then really skipped
+    /// instead of having its (hashbrown) method table iterated symbolically.
+    macro_rules! typed_gc {
+        ($t:ty, $e:expr) => {{
+            static mut SLOTS: [Option<Placed<$t>>; 4] = [None, None, None, None];
+            static mut N: usize = 0;
+            let v = $e;
+            unsafe {
+                let i = N;
+                N += 1;
+                SLOTS[i] = Some(Placed::new(v));
+                SLOTS[i].as_mut().unwrap().gc()
+            }
+        }};
+    }
     use crate::memory::Root;
     use crate::verif_stubs::random_state_stub;
 
@@ -58,13 +88,13 @@ mod verif_c01_edges {
         g
     }
     fn w_string() -> Gc<ObjString> {
-        leak_gc(ObjString::new(Gc::dangling(), "x", 1))
+        typed_gc!(ObjString, ObjString::new(Gc::dangling(), "x", 1))
     }
     fn w_native() -> Gc<ObjNative> {
-        leak_gc(ObjNative::new(Gc::dangling(), dummy_native, false))
+        typed_gc!(ObjNative, ObjNative::new(Gc::dangling(), dummy_native, false))
     }
     fn w_class() -> Gc<ObjClass> {
-        let c = leak_gc(ObjClass {
+        let c = typed_gc!(ObjClass, ObjClass {
             name: Gc::dangling(),
             metaclass: Gc::dangling(),
             superclass: None,
@@ -82,7 +112,7 @@ mod verif_c01_edges {
         grey(w_class())
     }
     fn w_chunk() -> Gc<Chunk> {
-        leak_gc(Chunk {
+        typed_gc!(Chunk, Chunk {
             code: vec![0u8, 0u8],
             lines: vec![1, 1],
             constant_map: HashMap::with_hasher(random_state_stub()),
@@ -90,22 +120,22 @@ mod verif_c01_edges {
         })
     }
     fn w_function() -> Gc<ObjFunction> {
-        leak_gc(ObjFunction::new(grey(w_string()), 1, 0, grey(w_chunk()), grey(w_string())))
+        typed_gc!(ObjFunction, ObjFunction::new(grey(w_string()), 1, 0, grey(w_chunk()), grey(w_string())))
     }
     fn w_closure() -> Gc<ObjClosure> {
-        leak_gc(ObjClosure::new(grey(w_function()), Vec::new(), Gc::dangling()))
+        typed_gc!(ObjClosure, ObjClosure::new(grey(w_function()), Vec::new(), Gc::dangling()))
     }
     fn w_upvalue() -> Gc<RefCell<ObjUpvalue>> {
-        leak_gc(RefCell::new(ObjUpvalue { data: ObjUpvalueState::Closed(Value::None), next: None }))
+        typed_gc!(RefCell<ObjUpvalue>, RefCell::new(ObjUpvalue { data: ObjUpvalueState::Closed(Value::None), next: None }))
     }
     fn w_vec() -> Gc<RefCell<ObjVec>> {
-        leak_gc(RefCell::new(ObjVec::new(g_class())))
+        typed_gc!(RefCell<ObjVec>, RefCell::new(ObjVec::new(g_class())))
     }
     fn w_tuple() -> Gc<ObjTuple> {
-        leak_gc(ObjTuple::new(g_class(), Vec::new()))
+        typed_gc!(ObjTuple, ObjTuple::new(g_class(), Vec::new()))
     }
     fn w_range() -> Gc<ObjRange> {
-        leak_gc(ObjRange::new(g_class(), 1, 2))
+        typed_gc!(ObjRange, ObjRange::new(g_class(), 1, 2))
     }
     /// The universal Value leaf: an ObjNative (its own mark is empty and it references no class).
     fn leaf_value() -> (Value, Gc<ObjNative>) {
@@ -114,6 +144,17 @@ mod verif_c01_edges {
     }
     fn white<T: 'static + GcManaged>(g: &Gc<T>) -> bool {
         colour_of(g) == WHITE
+    }
+    // Recorders standing in for `<HashMap<K, V, S> as GcManaged>::mark` in the map-owner harnesses.
+    static mut MAP_MARKED: *const u8 = std::ptr::null();
+    fn str_map_mark_recorder(m: &HashMap<Gc<ObjString>, Value, crate::hash::BuildPassThroughHasher>) {
+        unsafe { MAP_MARKED = m as *const _ as *const u8; }
+    }
+    fn val_map_mark_recorder(m: &HashMap<Value, Value, crate::hash::BuildPassThroughHasher>) {
+        unsafe { MAP_MARKED = m as *const _ as *const u8; }
+    }
+    fn map_marked<T>(m: &T) -> bool {
+        unsafe { MAP_MARKED == m as *const T as *const u8 }
     }
 '''
 
@@ -153,6 +194,7 @@ t("edge_closure_function", ["ObjClosure.function"], '''
         kani::cover!(white(&leaf), "reach");
         owner.mark();
         assert!(!white(&leaf), "closure keeps its function alive");
+        std::mem::forget(owner);
 ''')
 t("edge_closure_upvalues", ["ObjClosure.upvalues"], '''
         let leaf = w_upvalue();
@@ -164,6 +206,7 @@ t("edge_closure_upvalues", ["ObjClosure.upvalues"], '''
         kani::cover!(idx == 1, "reach");
         owner.mark();
         assert!(!white(&leaf), "closure keeps every captured variable alive");
+        std::mem::forget(owner);
 ''')
 t("edge_class_metaclass", ["ObjClass.metaclass"], '''
         let leaf = w_class();
@@ -181,31 +224,12 @@ t("edge_class_superclass", ["ObjClass.superclass"], '''
         assert!(!white(&leaf), "class keeps its superclass alive");
         std::mem::forget(owner);
 ''', unwind=3, group="edges-maps")
-t("edge_class_methods_value", ["ObjClass.methods"], '''
-        let (v, leaf) = leaf_value();
-        let mut methods = new_obj_string_value_map();
-        methods.insert(grey(w_string()), v);
-        let owner = ObjClass { name: Gc::dangling(), metaclass: g_class(), superclass: None, methods };
-        kani::cover!(white(&leaf), "reach");
-        owner.mark();
-        assert!(!white(&leaf), "class keeps its methods alive");
-        std::mem::forget(owner);
-''', unwind=3, group="edges-maps")
 t("edge_instance_class", ["ObjInstance.class"], '''
         let leaf = w_class();
         let owner = ObjInstance::new(leaf);
         kani::cover!(white(&leaf), "reach");
         owner.mark();
         assert!(!white(&leaf), "instance keeps its class alive");
-        std::mem::forget(owner);
-''', unwind=3, group="edges-maps")
-t("edge_instance_fields_value", ["ObjInstance.fields"], '''
-        let (v, leaf) = leaf_value();
-        let mut owner = ObjInstance::new(g_class());
-        owner.fields.insert(grey(w_string()), v);
-        kani::cover!(white(&leaf), "reach");
-        owner.mark();
-        assert!(!white(&leaf), "instance keeps its field values alive");
         std::mem::forget(owner);
 ''', unwind=3, group="edges-maps")
 t("edge_bound_closure_receiver", ["ObjBoundMethod.receiver"], '''
@@ -272,33 +296,6 @@ t("edge_tuple_iter_iterable", ["ObjTupleIter.iterable"], '''
         owner.mark();
         assert!(!white(&leaf), "tuple iterator keeps its tuple alive");
 ''')
-t("edge_hash_map_value", ["ObjHashMap.elements"], '''
-        let (v, leaf) = leaf_value();
-        let mut owner = ObjHashMap::new(g_class());
-        owner.elements.insert(Value::Number(1.0), v);
-        kani::cover!(white(&leaf), "reach");
-        owner.mark();
-        assert!(!white(&leaf), "hash map keeps its values alive");
-        std::mem::forget(owner);
-''', unwind=3, group="edges-maps")
-t("edge_hash_map_key", ["ObjHashMap.elements"], '''
-        let leaf = leak_gc(ObjTuple::new(g_class(), Vec::new()));
-        let mut owner = ObjHashMap::new(g_class());
-        owner.elements.insert(Value::ObjTuple(leaf), Value::Number(1.0));
-        kani::cover!(white(&leaf), "reach");
-        owner.mark();
-        assert!(!white(&leaf), "hash map keeps its keys alive");
-        std::mem::forget(owner);
-''', unwind=3, group="edges-maps", stub="tuple")
-t("edge_module_attributes_value", ["ObjModule.attributes"], '''
-        let (v, leaf) = leaf_value();
-        let mut owner = ObjModule::new(g_class(), grey(w_string()));
-        owner.attributes.insert(grey(w_string()), v);
-        kani::cover!(white(&leaf), "reach");
-        owner.mark();
-        assert!(!white(&leaf), "module keeps its global values alive");
-        std::mem::forget(owner);
-''', unwind=3, group="edges-maps")
 t("edge_call_frame_closure", ["CallFrame.closure"], '''
         let leaf = w_closure();
         let owner = CallFrame { closure: leaf, ip: std::ptr::null(), slot_base: 0 };
@@ -335,7 +332,8 @@ t("edge_stack_slots", ["Stack.stack"], '''
 
 # ObjFiber edges (need STACK_MAX = 16)
 FIBER_SETUP = '''
-        let parts = crate::vm::verif_vm::leaked_fiber(vec![0u8, 0u8], 1);
+        let mut fstore = crate::vm::verif_vm::FiberStore::empty();
+        let parts = fstore.init(vec![0u8, 0u8], 1);
         set_colour(&parts.closure, GREY);
         let fiber = parts.fiber;
 '''
@@ -364,7 +362,8 @@ t("edge_fiber_open_upvalues", ["ObjFiber.open_upvalues"], FIBER_SETUP + '''
         assert!(!white(&leaf), "fiber keeps its open upvalues alive");
 ''', unwind=5, group="edges-fiber")
 t("edge_fiber_caller", ["ObjFiber.caller"], FIBER_SETUP + '''
-        let other = crate::vm::verif_vm::leaked_fiber(vec![0u8, 0u8], 1);
+        let mut ostore = crate::vm::verif_vm::FiberStore::empty();
+        let other = ostore.init(vec![0u8, 0u8], 1);
         set_colour(&other.closure, GREY);
         let leaf = other.fiber;
         fiber.borrow_mut().caller = Some(leaf);
@@ -394,7 +393,7 @@ t("edge_generic_vec", [], '''
 ''')
 t("edge_generic_gcbox_mark", [], '''
         let leaf = w_upvalue();
-        let owner = leak_gc(RefCell::new(ObjUpvalue { data: ObjUpvalueState::Closed(Value::None), next: Some(leaf) }));
+        let owner = typed_gc!(RefCell<ObjUpvalue>, RefCell::new(ObjUpvalue { data: ObjUpvalueState::Closed(Value::None), next: Some(leaf) }));
         kani::cover!(white(&owner), "reach");
         owner.mark();
         assert!(colour_of(&owner) == GREY, "marking a white box greys it");
@@ -416,21 +415,21 @@ t("edge_generic_root_mark", [], '''
 
 # Value variants: the REAL Value::mark, one obligation per heap variant
 VALUE_LEAVES = {
-    "ObjStringIter": "leak_gc(RefCell::new(ObjStringIter::new(g_class(), grey(w_string()))))",
+    "ObjStringIter": "typed_gc!(RefCell<ObjStringIter>, RefCell::new(ObjStringIter::new(g_class(), grey(w_string()))))",
     "ObjFunction": "w_function()",
     "ObjNative": "w_native()",
     "ObjClosure": "w_closure()",
     "ObjClass": "w_class()",
-    "ObjInstance": "leak_gc(RefCell::new(ObjInstance::new(g_class())))",
-    "ObjBoundMethod": "leak_gc(RefCell::new(ObjBoundMethod::new(Value::None, grey(w_closure()))))",
-    "ObjBoundNative": "leak_gc(RefCell::new(ObjBoundMethod::new(Value::None, grey(w_native()))))",
+    "ObjInstance": "typed_gc!(RefCell<ObjInstance>, RefCell::new(ObjInstance::new(g_class())))",
+    "ObjBoundMethod": "typed_gc!(RefCell<ObjBoundMethod<ObjClosure>>, RefCell::new(ObjBoundMethod::new(Value::None, grey(w_closure()))))",
+    "ObjBoundNative": "typed_gc!(RefCell<ObjBoundMethod<ObjNative>>, RefCell::new(ObjBoundMethod::new(Value::None, grey(w_native()))))",
     "ObjTuple": "w_tuple()",
-    "ObjTupleIter": "leak_gc(RefCell::new(ObjTupleIter::new(g_class(), grey(w_tuple()))))",
+    "ObjTupleIter": "typed_gc!(RefCell<ObjTupleIter>, RefCell::new(ObjTupleIter::new(g_class(), grey(w_tuple()))))",
     "ObjVec": "w_vec()",
-    "ObjVecIter": "leak_gc(RefCell::new(ObjVecIter::new(g_class(), grey(w_vec()))))",
+    "ObjVecIter": "typed_gc!(RefCell<ObjVecIter>, RefCell::new(ObjVecIter::new(g_class(), grey(w_vec()))))",
     "ObjRange": "w_range()",
-    "ObjRangeIter": "leak_gc(RefCell::new(ObjRangeIter::new(g_class(), grey(w_range()))))",
-    "ObjHashMap": "leak_gc(RefCell::new(ObjHashMap::new(g_class())))",
+    "ObjRangeIter": "typed_gc!(RefCell<ObjRangeIter>, RefCell::new(ObjRangeIter::new(g_class(), grey(w_range()))))",
+    "ObjHashMap": "typed_gc!(RefCell<ObjHashMap>, RefCell::new(ObjHashMap::new(g_class())))",
 }
 MAP_LEAVES = ("ObjClass", "ObjInstance", "ObjHashMap")
 for variant, ctor in VALUE_LEAVES.items():
@@ -484,6 +483,12 @@ def generate(src_dir):
         if tpl["stub"] is True:
             attrs.append("    #[kani::stub(<crate::value::Value as crate::memory::GcManaged>::mark, crate::verif_stubs::value_mark_stub)]")
             stubs = ["GcManaged>::mark"]
+        elif tpl["stub"] == "strmap":
+            attrs.append("    #[kani::stub(<std::collections::HashMap<crate::memory::Gc<ObjString>, Value, crate::hash::BuildPassThroughHasher> as crate::memory::GcManaged>::mark, str_map_mark_recorder)]")
+            stubs = ["GcManaged>::mark"]
+        elif tpl["stub"] == "valmap":
+            attrs.append("    #[kani::stub(<std::collections::HashMap<Value, Value, crate::hash::BuildPassThroughHasher> as crate::memory::GcManaged>::mark, val_map_mark_recorder)]")
+            stubs = ["GcManaged>::mark"]
         elif tpl["stub"] == "tuple":
             attrs.append("    #[kani::stub(<crate::value::Value as crate::memory::GcManaged>::mark, crate::verif_stubs::value_mark_stub_tuple)]")
             stubs = ["GcManaged>::mark"]
@@ -501,7 +506,7 @@ def generate(src_dir):
     fn edges_twin_must_fail() {
         let leaf = w_upvalue();
         let owner = ObjUpvalue { data: ObjUpvalueState::Closed(Value::None), next: Some(leaf) };
-        owner.mark();
+        assert!(white(&leaf) && owner.next.is_some(), "set-up");
         assert!(false, "twin");
     }
 }
@@ -510,7 +515,7 @@ def generate(src_dir):
         harnesses.append({"name": "edges_twin_must_fail", "group": g, "module": "object::verif_c01_edges", "twin": True})
     unencoded = []
     for k, ty in sorted(ref_edges.items()):
-        if k in covered or k in EXEMPT:
+        if k in covered or k in EXEMPT or k in NOT_ENCODABLE:
             continue
         if k in ("ObjUpvalueState.Open", "ObjUpvalueState.Closed"):
             continue
@@ -518,7 +523,8 @@ def generate(src_dir):
             continue
         unencoded.append("%s: %s (reference-bearing field with no harness template and no exemption)" % (k, ty))
     return {"files": {"object.rs": "".join(out)}, "harnesses": harnesses, "unencoded": unencoded,
-            "edges_found": sorted(ref_edges), "exempt": {k: v for k, v in EXEMPT.items() if k in fields}}
+            "edges_found": sorted(ref_edges), "exempt": {k: v for k, v in EXEMPT.items() if k in fields},
+            "not_encodable": {k: v for k, v in NOT_ENCODABLE.items() if k in fields}}
 
 
 if __name__ == "__main__":
